@@ -5,6 +5,11 @@ from .C09 import build
 
 
 def run(ctx):
+    _run(ctx)
+    ctx.delegate("C09", ["C09.ctor", "C09.W5"], "C04.commit",
+                 "for n = 0 too the .shx is the header with length 50: a new writer is dirty, so drop emits both headers", floor=3)
+
+def _run(ctx):
     F = ctx.facts("default")
     sp = util.spec()
     ctx.rule("C04.entry", "write_shape: the index entry is two big-endian i32: the running length as it was *before* this record "
